@@ -14,6 +14,7 @@ import (
 	"os"
 	"sort"
 	"strings"
+	"time"
 
 	"github.com/LemoFoundationLtd/lemochain-core/chain/account"
 	"github.com/LemoFoundationLtd/lemochain-core/chain/consensus"
@@ -397,4 +398,69 @@ func txRegisterPaid(from *ecdsa.PrivateKey, deposit *big.Int, nodeKey *ecdsa.Pri
 		panic(err)
 	}
 	return ptx
+}
+
+// competingBlock: a sibling of `b` (same parent, a later slot, its own transactions) is mined on node A's data and given
+// to node B BEFORE `b`: B executes a branch that is discarded afterwards (b gets the confirmations).
+func (l *ledger) competingBlock(nb *Node, parent, b *types.Block, t uint32, exp uint64) {
+	c := l.c
+	slot := uint32(l.w.Timeout / 1000)
+	for j := uint32(1); j <= 4; j++ {
+		t2 := t + j*slot
+		addr, k, err := l.inTurn(parent, t2)
+		if err != nil || addr == b.MinerAddress() {
+			continue
+		}
+		txs := types.Transactions{
+			txTransfer(l.w.FounderKey, keyAddr(l.key("u1")), lemo(int64(200+c.Rnd.Intn(500))), TxOpt{Exp: exp, Msg: fmt.Sprintf("side-%d-a", b.Height())}),
+			txTransfer(l.w.FounderKey, keyAddr(l.key("u2")), lemo(int64(1+c.Rnd.Intn(300))), TxOpt{Exp: exp, Msg: fmt.Sprintf("side-%d-b", b.Height())}),
+		}
+		side, _, _, err := l.buildRec(parent, t2, txs, k, 0)
+		if err != nil {
+			c.Count("nodeB:competing-block:build-failed")
+			return
+		}
+		if e := nb.Insert(CloneBlock(side)); e != nil {
+			c.Fail("c01/honest-block-rejected/competing-branch", fmt.Sprintf("a second honest block %d on the same parent (miner %s, later slot) is rejected by node B: %v", side.Height(), addr.String(), e), nil)
+			return
+		}
+		c.Count("nodeB:executed-competing-block-first")
+		return
+	}
+	c.Count("nodeB:competing-block:no-other-deputy-in-turn")
+}
+
+// waitAssetIndex: the asset code -> issuer index (and the canonical asset states VerifyAssetTx reads) are written by the
+// store's background goroutine after a block became stable on THIS node. Before a node is given a block with asset txs,
+// wait (bounded) until its index knows the assets the block refers to — otherwise the known finding
+// c01/honest-block-rejected/asset-tx-needs-locally-stable-asset shows up as scheduling noise.
+func waitAssetIndex(n *Node, b *types.Block) bool {
+	has := false
+	for _, tx := range b.Txs {
+		var code common.Hash
+		switch tx.Type() {
+		case params.IssueAssetTx, params.ReplenishAssetTx, params.ModifyAssetTx:
+			var d struct {
+				AssetCode common.Hash `json:"assetCode"`
+			}
+			json.Unmarshal(tx.Data(), &d)
+			code = d.AssetCode
+		case params.TransferAssetTx:
+			var d struct {
+				AssetId common.Hash `json:"assetId"`
+			}
+			json.Unmarshal(tx.Data(), &d)
+			code = d.AssetId // token assets: id == code
+		default:
+			continue
+		}
+		has = true
+		for i := 0; i < 300; i++ {
+			if is, err := n.DB.GetAssetCode(code); err == nil && is != (common.Address{}) {
+				break
+			}
+			time.Sleep(10 * time.Millisecond)
+		}
+	}
+	return has
 }
